@@ -123,3 +123,83 @@ Proof.
   cbv zeta. split; [vm_compute; reflexivity|]. split; [apply Alive_closed|].
   exists (ECall CNamedFunc EIdent []). vm_compute. split; reflexivity.
 Qed.
+
+(* ==== Phase 4: the recording of DCE names and dependencies is inside the model ================
+   Model/C05_Record.v mirrors getFilters / filterGen (filters.go) and the DeclareDCEDep call sites for an
+   abstract syntax of mentions: package-level functions and variables, named types (also through
+   pointers, slices, maps, func types), generic instances, method calls/values through concrete
+   receivers (promoted methods: the embedded type declares them), through interfaces, method
+   expressions T.m / I.m, conversions (a type mention).  [compile p] is the Decl list handed to the
+   Selector.  Proofs/C05_P4_Record.v defines, independently of any filter string, which declaration a
+   mention needs, which method declarations a call can dispatch to (static selection / Go's
+   method-set rule with types.Identical on signatures) and [Reach]: the declarations whose code can be
+   executed or whose method can be reached by any dynamically possible call, a method body being
+   executable only if some reachable code names the receiver type instance (values of a named type
+   come into existence only in code that names the type). *)
+From Verif Require Import Model.C05_Record Proofs.C05_P4_Record Proofs.C05_P4_Witness.
+
+(* The method filter recorded at a call site (interface or concrete) equals the filter the implementing
+   method declaration is named with whenever Go's rule says the call can reach it (identical
+   signatures after substituting the receiver's type arguments), for alias-free spellings. *)
+Theorem C05_method_filter_agrees : forall targs mp mn s s',
+  sig_identical s' (sig_subst targs s) = true ->
+  sig_canonical s' = true -> sig_canonical (sig_subst targs s) = true -> sig_wf s = true ->
+  meth_filter [] mp mn s' = meth_filter (tys_filter [] targs) mp mn s.
+Proof. exact method_filter_agrees. Qed.
+Print Assumptions C05_method_filter_agrees.
+
+(* ... and it is FALSE without the spelling hypothesis (recorded finding
+   dce-unexported-method-byte-uint8-spelling-mismatch): write([]byte) rune / write([]uint8) int32 *)
+Theorem C05_method_filter_refuted : exists s s',
+  sig_identical s' (sig_subst TNil s) = true /\ sig_wf s = true /\
+  meth_filter [] "main" "write" s' <> meth_filter [] "main" "write" s.
+Proof. exact method_filter_refuted. Qed.
+Print Assumptions C05_method_filter_refuted.
+
+(* filterGen's replacement map = printing the substituted signature (generic receivers) *)
+Theorem C05_filter_subst : forall ta s, sig_wf s = true ->
+  sig_filter (tys_filter [] ta) s = sig_filter [] (sig_subst ta s).
+Proof. exact sig_filter_subst. Qed.
+Print Assumptions C05_filter_subst.
+
+(* The recorded dependencies cover the references: every reachable declaration of a program built by
+   the mirrored recorder is in the least fixed point [Alive] of the selection rule — the hypothesis
+   [deps_overapprox] of C05_select_sound_partial is discharged for the modelled syntax. *)
+Theorem C05_recorded_deps_cover_references : forall p, prog_ok p = true ->
+  forall g, Reach p g -> forall i, nth_error p i = Some g -> Alive (compile p) (mk_decl p i g).
+Proof. exact reach_alive. Qed.
+Print Assumptions C05_recorded_deps_cover_references.
+
+(* Soundness without the hypothesis: the real work-list algorithm, run on the recorded names and
+   dependencies, selects every reachable declaration. *)
+Theorem C05_select_sound : forall p, prog_ok p = true ->
+  forall g i, Reach p g -> nth_error p i = Some g ->
+  exists ids, select (compile p) = Some ids /\ In (N.of_nat i) ids.
+Proof. exact reach_selected. Qed.
+Print Assumptions C05_select_sound.
+
+(* Full statement (visible, FALSE for the code as it is): the same without [prog_ok], whose only
+   semantic content is "no type is spelled byte / rune" (and variadic parameters are slices). *)
+Definition C05_select_sound_full_statement : Prop :=
+  forall p g i, Reach p g -> nth_error p i = Some g ->
+  exists ids, select (compile p) = Some ids /\ In (N.of_nat i) ids.
+
+Theorem C05_select_sound_refuted_iface : ~ C05_select_sound_full_statement.
+Proof. exact select_sound_refuted_iface. Qed.
+Print Assumptions C05_select_sound_refuted_iface.
+
+(* second witness (NEW finding dce-generic-instance-byte-uint8-spelling-mismatch): the instance Decl
+   F[byte] (named after the spelling seen first, in dead code) is needed by main's F[uint8] *)
+Theorem C05_select_sound_refuted_instance : exists p g i,
+  Reach p g /\ nth_error p i = Some g /\
+  exists ids, select (compile p) = Some ids /\ ~ In (N.of_nat i) ids.
+Proof. exact select_sound_refuted_instance. Qed.
+Print Assumptions C05_select_sound_refuted_instance.
+
+(* Non-vacuity: a canonical program in which an unexported method of a generic instance is reached only
+   through an interface call, and is selected *)
+Example C05_p4_nonvacuous :
+  prog_ok p4_example = true /\ Reach p4_example p4_example_method /\
+  nth_error p4_example 3 = Some p4_example_method /\
+  exists ids, select (compile p4_example) = Some ids /\ In 3%N ids /\ ~ In 5%N ids.
+Proof. exact p4_example_ok. Qed.
